@@ -22,6 +22,7 @@ def compose_models(models_map: Dict[str, ModelMeta]) -> ModelsStructureType:
     }
     # TODO: Test path_injections
     path_injections: Dict[ModelMeta, ModelMeta] = {}
+    models_order = list(models_map)
 
     for key, model in models_map.items():
         pointers = list(filter_pointers(model))
@@ -52,7 +53,7 @@ def compose_models(models_map: Dict[str, ModelMeta]) -> ModelsStructureType:
                 path_injections[struct["model"]] = parent["model"]
             else:
                 # Model is using by only one model
-                parent = structure_hash_table[next(iter(parents))]
+                parent = structure_hash_table[min(parents, key=models_order.index)]
                 struct = structure_hash_table[key]
                 parent["nested"].append(struct)
 
@@ -69,6 +70,7 @@ def compose_models_flat(models_map: Dict[Index, ModelMeta]) -> ModelsStructureTy
     root_models = ListEx()
     positions: PositionsDict[Index, int] = PositionsDict()
     top_level_models: Set[Index] = set()
+    models_order = list(models_map)
     structure_hash_table: Dict[Index, dict] = {
         key: {
             "model": model,
@@ -104,7 +106,7 @@ def compose_models_flat(models_map: Dict[Index, ModelMeta]) -> ModelsStructureTy
                 positions.update_position(parents_joined, pos + 1)
             else:
                 # Model is using by only one model
-                parent = next(iter(parents))
+                parent = min(parents, key=models_order.index)
                 pos = positions.get(parent, len(root_models))
                 positions.update_position(parent, pos + 1)
             positions.update_position(key, pos + 1)
